@@ -123,14 +123,5 @@ def run_for(scratch, tier, prop):
     specs.append(dict(name="canary_must_fail", kind="canary", contract="assert that must fail"))
     obs, cmd, out = kani.run_harnesses(crate, specs, NAME, "heap", jobs=8, timeout=3000, harness_timeout="4m",
                                        extra_flags=["--no-assertion-reach-checks"])
-    nplay = 0
-    for o in obs:
-        if o.status == "failed" and o.kind in ("proof", "bounded"):
-            o.output = out[-6000:]
-            nplay += 1
-            if nplay <= 1:
-                try:
-                    o.playback = kani.playback(crate, o.name, "heap")
-                except Exception as ex:
-                    o.playback = {"error": repr(ex)}
+    kani.attach_counterexamples(obs, crate, "heap", out)
     return obs, meta, cmd
